@@ -1545,7 +1545,7 @@ Section Tokens.
     cbn [pre_of build tok_of map concat]. rewrite app_nil_r.
     change (c0 :: one_body pre x post ++ [10]) with (one_line c0 pre x post ++ [10]).
     destruct (strip_block_line _ (one_block_line _ _ _ _ Hw)) as [S _]. rewrite S. unfold inline.
-    pose proof (one_in_sentence span_types fn (c0 :: pre) x post Hleaf Hok) as T.
+    pose proof (one_in_sentence span_types fn (c0 :: pre) x post Hleaf Hemph Hok) as T.
     replace (one_line c0 pre x post) with ((c0 :: pre) ++ inl_text x ++ post) by reflexivity.
     rewrite T. reflexivity.
   Qed.
